@@ -53,8 +53,9 @@ Proof. vm_compute. reflexivity. Qed.
 
 (* SEMANTIC SOUNDNESS of every propagator, ground or not.
    MstF th st : the valuation th solves st - its substitution, every stored constraint of every kind
-   (ltefd/plusfd/minusfd/timesfd/diseqfd and the CLP(Z) and tree constraints, read as integer
-   relations on the values th gives their operands) and every domain (the variable's value is an
+   (ltefd/plusfd/minusfd/timesfd/diseqfd, distinctfd read as "the elements of the list are pairwise
+   different integers", and the CLP(Z) and tree constraints, read as integer relations on the values
+   th gives their operands) and every domain (the variable's value is an
    integer of the domain).  SolF st st' : st' extends st's substitution, keeps all sparse domains
    sorted, and every solution of st' solves st's constraints and domains.
    For EVERY constraint kind, any operands (ground, partly bound, variables), any fuel, and states whose
